@@ -8,9 +8,10 @@ import (
 	"time"
 )
 
-// C20 (white list): with whiteListBlocks "10.0.0.0/31" the addresses 10.0.0.0 and 10.0.0.1 are never limited (every
-// request passes and reports max -1) while their requests are still counted; 10.0.0.2 and 10.0.0.3 are limited exactly
-// as without a white list. All histories of 3 requests from these four addresses, any quota and interval.
+// C20 (white list): with whiteListBlocks "10.0.0.0/31,2001:db8:aa::/48" the addresses 10.0.0.0, 10.0.0.1 and
+// 2001:db8:aa::1 are never limited (every request passes and reports max -1) while their requests are still counted;
+// 10.0.0.2 and 2001:db8:bb::1 are limited exactly as without a white list. All histories of 3 requests from these five
+// addresses, any quota and interval.
 // Under symbolic execution net.ParseCIDR / net.ParseIP / IPNet.Contains (netip internals) are replaced by stubs that
 // implement exactly this block for these four addresses; natively the real net package runs.
 
@@ -18,26 +19,41 @@ func init() {
 	vHarnesses["vH_C20_whitelist"] = vH_C20_whitelist
 }
 
-var vC20IPs = [4]string{"10.0.0.0", "10.0.0.1", "10.0.0.2", "10.0.0.3"}
+// addresses 0, 1 (IPv4) and 3 (IPv6) are inside the white-listed blocks, 2 (IPv4) and 4 (IPv6) are not
+var vC20IPs = [5]string{"10.0.0.0", "10.0.0.1", "10.0.0.2", "2001:db8:aa::1", "2001:db8:bb::1"}
+
+func vC20Listed(id int) bool { return id == 0 || id == 1 || id == 3 }
 
 func vStubParseCIDR(s string) (net.IP, *net.IPNet, error) { return nil, &net.IPNet{}, nil }
 
 func vStubParseIP(s string) net.IP {
 	for i, a := range vC20IPs {
 		if s == a {
-			return net.IP{10, 0, 0, byte(i)}
+			if i < 3 {
+				return net.IP{10, 0, 0, byte(i)}
+			}
+			sub := byte(0xaa)
+			if i == 4 {
+				sub = 0xbb
+			}
+			return net.IP{0x20, 0x01, 0x0d, 0xb8, 0, sub, 0, 0, 0, 0, 0, 0, 0, 0, 0, 1}
 		}
 	}
 	return nil
 }
 
-func vStubIPNetContains(n *net.IPNet, ip net.IP) bool { return len(ip) == 4 && ip[3] < 2 }
+func vStubIPNetContains(n *net.IPNet, ip net.IP) bool {
+	if len(ip) == 4 {
+		return ip[0] == 10 && ip[3] < 2
+	}
+	return len(ip) == 16 && ip[0] == 0x20 && ip[5] == 0xaa
+}
 
 func vH_C20_whitelist() {
 	maxReq := vInt("max", 0, 4)
 	itvlMS := vInt("itvlMS", 1, 3600000)
 	t0 := vInt("t0", 0, 1<<40)
-	il, err := NewIPRequestLimiter(maxReq, time.Duration(itvlMS)*time.Millisecond, time.UnixMilli(int64(t0)), "10.0.0.0/31", "")
+	il, err := NewIPRequestLimiter(maxReq, time.Duration(itvlMS)*time.Millisecond, time.UnixMilli(int64(t0)), "10.0.0.0/31,2001:db8:aa::/48", "")
 	vAssert("C20.whitelist.new-ok", err == nil)
 	if err != nil {
 		return
@@ -47,7 +63,7 @@ func vH_C20_whitelist() {
 	t := t0
 	for i := 0; i < 3; i++ {
 		t += vInt(fmt.Sprintf("dt%d", i), 0, 1<<32)
-		id := vConc(vInt(fmt.Sprintf("ip%d", i), 0, 3))
+		id := vConc(vInt(fmt.Sprintf("ip%d", i), 0, 4))
 		ip := vC20IPs[id]
 		nr, maxNr, ok := il.Inc(time.UnixMilli(int64(t)), ip)
 		if t-resetT > itvlMS {
@@ -56,7 +72,7 @@ func vH_C20_whitelist() {
 		}
 		cnt[ip]++
 		vAssert("C20.whitelist.counted", nr == cnt[ip])
-		if id < 2 {
+		if vC20Listed(id) {
 			vAssert("C20.whitelist.listed-always-passes", ok)
 			vAssert("C20.whitelist.listed-reports-no-limit", maxNr == -1)
 		} else {
